@@ -247,4 +247,35 @@ fn reach() {
     kani::cover!(q.is_ok());
     kani::cover!(q.is_err());
     core::mem::forget(wk);
+}/// Clone: a clone is the same combinator over the same parts — `and_then_call` holds of it verbatim   [C11]
+#[kani::proof]
+fn and_then_call_on_clone() {
+    let orig = svc();
+    let s = orig.clone();          // everything below is asked of the CLONE
+    let req: u8 = kani::any();
+    let f = s.call(req);
+    assert!(calls(A) == 1);
+    assert!(call_req(A) == req);
+    assert!(calls(B) == 0);
+    assert!(fut_polls(A) == 0 && fut_polls(B) == 0 && rdy_polls(A) == 0 && rdy_polls(B) == 0);
+    match &f.state {
+        State::A { fut, b } => { assert!(fut.id == A && !fut.done); assert!(b.is_some()); }
+        State::B { .. } => kani::assert(false, "call must start in state A"),
+    }
 }
+
+/// Clone: a clone is the same combinator over the same parts — `and_then_factory_new_service` holds of it verbatim   [C11]
+#[kani::proof]
+fn and_then_factory_new_service_on_clone() {
+    let orig = AndThenServiceFactory::<_, _, u8>::new(LeafFactory { id: A }, LeafFactory { id: B });
+    let fac = orig.clone();          // everything below is asked of the CLONE
+    let cfg: u8 = kani::any();
+    let f = fac.new_service(cfg);
+    assert!(new_calls(A) == 1 && new_calls(B) == 1);
+    assert!(new_cfg(A) == cfg && new_cfg(B) == cfg);
+    assert!(fact_polls(A) == 0 && fact_polls(B) == 0);
+    assert!(f.a.is_none() && f.b.is_none());
+    assert!(f.fut_a.id == A && f.fut_b.id == B && !f.fut_a.done && !f.fut_b.done);
+}
+
+
